@@ -16,7 +16,7 @@ from .smt import (T, INT, BOOL, STR, IntV, BoolV, StrV, TRUE, FALSE, And, Or, No
                   At, Contains, PrefixOf, SuffixOf, Max, Min)
 from .vals import (Undecided, V, VInt, VBool, VStr, VNone, NONE, VVal, VSeq, VTuple,
                    VRef, VFunc, VPy, VBound, VExc, Raised, HList, HPyList, HDict,
-                   HSet, HInst, HObjList, parse_type, sort_of, wrap)
+                   HSet, HInst, HObjList, HMap, parse_type, sort_of, wrap)
 
 WS_CHARS = ' \t\n\r\x0b\x0c\x1c\x1d\x1e\x1f\x85\xa0'
 
@@ -468,24 +468,17 @@ def list_insert(eng, args, kwargs, st, node):
 @method('list.index')
 def list_index(eng, args, kwargs, st, node):
     xs, x = args[0], args[1]
+    if len(args) > 2:
+        raise Undecided('list.index with start/stop', node)
     seq, elem = eng.seq_of(xs, st)
-    if not isinstance(x, (VStr, VInt, VBool)):
+    if not isinstance(x, VStr) or elem != ('str',):
         raise Undecided('index of %r' % (x,), node)
-    eng.trusted_used.add('builtin:list.index (first occurrence; ValueError when absent)')
-    u = smt.Unit(x.t)
-    has = smt.mk('seq.contains', [seq, u], BOOL)
+    from . import specs_support
+    r = specs_support.call_spec_by_name(eng, 'first_index', [VSeq(seq, elem), x], st, node)
+    has = smt.mk('seq.contains', [seq, smt.Unit(x.t)], BOOL)
     out = []
-    for r, s in eng._safe_result(has, NONE, ValueError, st, node):
-        if isinstance(r, Raised):
-            out.append((r, s))
-            continue
-        f = eng.ctx.fresh('index', INT)
-        s.assume(And(Le(IntV(0), f), Lt(f, Len(seq)), Eq(At(seq, f), x.t)))
-        p = smt.bound(eng.ctx, 'p', INT)
-        s.alts.append(('contract', smt.ForAll([p], Implies(And(Le(IntV(0), p), Lt(p, f)), Ne(At(seq, p), x.t)),
-                                              patterns=[[At(seq, p)]])))
-        s.alts.append(('native', Eq(f, smt.mk('seq.indexof', [seq, u, IntV(0)], INT))))
-        out.append((VInt(f), s))
+    for res, s in eng._safe_result(has, r, ValueError, st, node):
+        out.append((res, s))
     return out
 
 
@@ -511,8 +504,17 @@ def list_copy(eng, args, kwargs, st, node):
 
 # ----------------------------------------------------------- dicts and sets
 
+def _empty_present(o):
+    ks = o.present.sort[len('(Array '):-len(' Bool)')]
+    return smt.T('((as const %s) false)' % o.present.sort, o.present.sort)
+
+
 @method('dict.clear')
 def dict_clear(eng, args, kwargs, st, node):
+    o = st.heap[args[0].loc]
+    if isinstance(o, HMap):
+        st.heap[args[0].loc] = HMap(_empty_present(o), o.vals, o.vty)
+        return [(NONE, st)]
     st.heap[args[0].loc] = HDict({})
     return [(NONE, st)]
 
@@ -615,6 +617,15 @@ def m_len(eng, args, kwargs, st, node):
             return [(VInt(Len(o.seq)), st)]
         if isinstance(o, HObjList):
             return [(VInt(o.n), st)]
+        if isinstance(o, HMap):
+            eng.trusted_used.add('builtin:len(dict) (uninterpreted cardinality; 0 iff no key present)')
+            c = eng.model_app('py_mapcard', [o.present], INT)
+            st.assume(Ge(c, IntV(0)))
+            x = smt.bound(eng.ctx, 'k', INT)
+            empty = smt.ForAll([x], Not(smt.mk('select', [o.present, x], BOOL)),
+                               patterns=[[smt.mk('select', [o.present, x], BOOL)]])
+            st.assume(Eq(Eq(c, IntV(0)), empty))
+            return [(VInt(c), st)]
         if isinstance(o, HSet):
             eng.trusted_used.add('builtin:len(set) (uninterpreted card; 0 iff empty)')
             c = eng.model_app('py_card', [o.arr], INT)
@@ -843,3 +854,61 @@ def m_re_sub(eng, args, kwargs, st, node):
     eng.trusted_used.add('stdlib:re.sub for pattern %r (uninterpreted S.%s)' % (p, name))
     from . import specs_support
     return [(specs_support.call_spec_by_name(eng, name, [s], st, node), st)]
+
+
+# --------------------------------------------------- io.StringIO (as used by TeeStringIO)
+# State of the stream: fields buf (everything written so far) and pos (read/write position).
+
+def _set_fields(st, ref, **kw):
+    o = st.heap[ref.loc]
+    f = dict(o.fields)
+    f.update(kw)
+    st.heap[ref.loc] = HInst(o.cls, f, o.view)
+
+
+@method('TeeStringIO.seek')
+def sio_seek(eng, args, kwargs, st, node):
+    eng.trusted_used.add('stdlib:io.StringIO seek/read/tell (buffer + position model)')
+    self_, pos = args[0], args[1]
+    _set_fields(st, self_, pos=pos)
+    return [(pos, st)]
+
+
+@method('TeeStringIO.read')
+def sio_read(eng, args, kwargs, st, node):
+    self_ = args[0]
+    o = st.heap[self_.loc]
+    buf, pos = o.fields['buf'], o.fields['pos']
+    n = Len(buf.t)
+    text = Substr(buf.t, Min(Max(pos.t, IntV(0)), n), n)
+    _set_fields(st, self_, pos=VInt(Max(pos.t, n)))
+    return [(VStr(text), st)]
+
+
+@method('TeeStringIO.tell')
+def sio_tell(eng, args, kwargs, st, node):
+    return [(st.heap[args[0].loc].fields['pos'], st)]
+
+
+@method('TeeStringIO.close')
+def sio_close(eng, args, kwargs, st, node):
+    return [(NONE, st)]
+
+
+# ------------------------------------------------------------- os / warnings
+import os as _os
+import warnings as _warnings
+
+
+@func(_os.fspath)
+def m_fspath(eng, args, kwargs, st, node):
+    if isinstance(args[0], VStr):
+        return [(args[0], st)]
+    raise Undecided('os.fspath of %r' % (args[0],), node)
+
+
+@func(_warnings.warn)
+def m_warn(eng, args, kwargs, st, node):
+    eng.trusted_used.add('stdlib:warnings.warn (no effect on the verified state)')
+    eng.log_event(st, 'warnings.warn', {'message': args[0]}, 'normal')
+    return [(NONE, st)]
